@@ -3,6 +3,9 @@ import GtModel.Model.Range
 import GtModel.Model.Edits
 import GtModel.Model.Cli
 import GtModel.Model.Formats
+import GtModel.Model.Assign
+import GtModel.Model.Bounded
+import GtModel.Model.Search
 open Lean GtModel
 
 namespace Driver
@@ -15,6 +18,8 @@ def table : List (String × Handler) := [
   ("script", scriptHandler),
   ("cli", Cli.cliHandler),
   ("formats", Formats.formatsHandler),
+  ("assign", Assign.assignHandler),
+  ("bounded", GtModel.Bounded.boundedHandler),
   ("errorpath", Cli.errorPathHandler),
   ("editmatrix", EditMatrix.editMatrixHandler),
   ("strscript", EditMatrix.strScriptHandler)
